@@ -28,6 +28,8 @@ LEVEL_TEXT = (
     "program is repeated over twin leaves (same names, other rows) in the same engines, where the original operation "
     "relations are also re-applied (public reapply) to the twin operands.  Every relation built is materialized as a "
     "probe (columns kept, locked nodes kept); generated materializations are compared on content."
+    "  The program is chained with its twin-leaf copy in both orders: every locked node of either operand must be in "
+    "the result as the identical object."
 )
 LEVEL_NOTE = "trusts: names are unique per case (harness-chosen), ev_multi labels, harness Processor for executing multi-engine results; Processor.process itself is excluded (it re-creates markers by design)"
 RULE = (
